@@ -321,7 +321,7 @@ def c02_bomb(ctx, fam, size, phase, stack, use_async=False):
     sig, case, ph, so_flag = ab
     kind = "stack-overflow" if so_flag else f"abort-sig{sig}"
     r["violations"].append({
-        "signature": f"C02:{kind}:bomb-{fam}:{PHASE_NAMES[ph]}",
+        "signature": f"C02:{kind}:bomb-{fam}:{PHASE_NAMES[ph]}:stack{stack >> 20}M:{size}",
         "detail": f"{kind} in phase {PHASE_NAMES[ph]} ({'async' if use_async else 'blocking'} parser, {stack >> 20} MiB stack) on the {fam} bomb of {size} input bytes",
         "replay": argv, "binary": "vcore"})
     r["violations_total"] = 1
@@ -421,10 +421,10 @@ C15_FAMILIES = ["nest", "nest-noname", "nest-multi", "set-width", "coll-set", "a
 C15_RATIO_LIMIT = 2.6
 
 
-def c15_irefs(ctx, fam, size, use_async):
+def c15_irefs(ctx, fam, size, use_async, chunk=0):
     import re
     cmd = ["valgrind", "--tool=cachegrind", "--cache-sim=no", "--cachegrind-out-file=/dev/null",
-           _bin(ctx, "vcore"), "cost", "--family", fam, "--size", str(size)] + (["--async"] if use_async else [])
+           _bin(ctx, "vcore"), "cost", "--family", fam, "--size", str(size)] + (["--async"] if use_async else []) + (["--chunk", str(chunk)] if chunk else [])
     rc, so, se, secs = ctx["run"](cmd, timeout=1800)
     m = re.search(r"I\s+refs:\s+([\d,]+)", se)
     n = re.search(r"input_bytes=(\d+)", so)
@@ -436,12 +436,13 @@ def c15_irefs(ctx, fam, size, use_async):
 
 
 def c15_series(ctx, job):
-    fam, use_async, max_size = job
-    key = f"{fam}/{'async' if use_async else 'blocking'}"
+    fam, use_async, max_size = job[:3]
+    chunk = job[3] if len(job) > 3 else 0
+    key = f"{fam}/{'async' if use_async else 'blocking'}" + (f"/reads-of-{chunk}" if chunk else "")
     series, viol, inconcl = [], [], []
     size = 4096
     while size <= max_size:
-        irefs, n, err = c15_irefs(ctx, fam, size, use_async)
+        irefs, n, err = c15_irefs(ctx, fam, size, use_async, chunk)
         if err == "timeout":
             # >100x backstop: a linear parse of <= 1 MiB under cachegrind takes seconds, not half an hour
             inconcl.append(f"watchdog: cachegrind run {key} size {size} exceeded 1800 s")
@@ -459,7 +460,7 @@ def c15_series(ctx, job):
                     viol.append({
                         "signature": f"C15:superlinear-instructions:{fam}",
                         "detail": f"{key}: instructions grow by x{ratio:.2f} per doubling at {n} input bytes (series (input bytes, I refs): {series}); linear is 2, quadratic 4, limit {C15_RATIO_LIMIT}",
-                        "replay": ["cost", "--family", fam, "--size", str(size)] + (["--async"] if use_async else []),
+                        "replay": ["cost", "--family", fam, "--size", str(size)] + (["--async"] if use_async else []) + (["--chunk", str(chunk)] if chunk else []),
                         "binary": "vcore"})
                     break  # stop the series at the first violating doubling
         size *= 2
@@ -469,6 +470,7 @@ def c15_series(ctx, job):
 def c15_cachegrind(ctx):
     max_size = (1 << 20) if ctx["tier"] == "thorough" else (64 << 10)
     jobs = [(f, a, max_size) for f in C15_FAMILIES for a in (False, True)]
+    jobs += [(f, a, max_size, 13) for f in ("value-len", "name-len", "attr-count", "nest") for a in (False, True)]
     out = _pool(jobs, lambda j: c15_series(ctx, j))
     r = _empty_result(ctx)
     allseries = {}
@@ -496,7 +498,8 @@ def c15_replay(ctx, rp):
     if rp["argv"] and rp["argv"][0] == "cost":
         fam = rp["argv"][rp["argv"].index("--family") + 1]
         size = int(rp["argv"][rp["argv"].index("--size") + 1])
-        key, series, viol, inconcl = c15_series(ctx, (fam, "--async" in rp["argv"], size))
+        chunk = int(rp["argv"][rp["argv"].index("--chunk") + 1]) if "--chunk" in rp["argv"] else 0
+        key, series, viol, inconcl = c15_series(ctx, (fam, "--async" in rp["argv"], size, chunk))
         out = f"series {key}: {series}\n" + "".join(f"VIOLATION-REPLAYED {v['signature']}: {v['detail']}\n" for v in viol)
         return (1 if viol else 0), out, "", 0
     return vcore_check("c15")["replay"](ctx, rp)
